@@ -5,7 +5,8 @@ sys.path.insert(0, os.path.join(os.path.dirname(os.path.abspath(__file__)), ".."
 import vlib, runner, gcgen, edgecover
 
 BUGS = {"tls": "SafeCollect", "coop": "DownClean", "stop": "DelWorks", "noclear": "Once", "nested": "DownClean", "tearonce": "DownClean",
-        "noflush": "SafeCollect"}          # the mark phase does not spill the registers into the frame it scans
+        "noflush": "SafeCollect",
+        "rootonce": "DownClean"}           # teardown counts the roots once, before its first pass (finalisers release roots and allocate)          # the mark phase does not spill the registers into the frame it scans
 
 
 def setup(chk, tier, want_bugs):
@@ -17,6 +18,7 @@ def setup(chk, tier, want_bugs):
                           "6g" if quick else "24g", (), None, 3000)
         f_edge = ex.submit(vlib.tlc, "Heap", "Heap_edges.cfg", wd, 4, "4g")
         f_spawn = ex.submit(vlib.tlc, "Heap", "Heap_spawn.cfg", wd, 4, "4g")        # finalisers that allocate (during a sweep, during teardown)
+        f_hold = ex.submit(vlib.tlc, "Heap", "Heap_holders.cfg", wd, 4, "4g")       # finalisers that release a root they own and allocate
         f_regs = ex.submit(vlib.tlc, "Heap", "Heap_regs.cfg", wd, 4, "4g")          # references the compiler keeps in callee-saved registers only
         f_bug = {b: ex.submit(vlib.tlc, "Heap", "Heap_bug_%s.cfg" % b, wd, 2, "2g") for b in want_bugs}
         lib = f_lib.result()
@@ -27,6 +29,10 @@ def setup(chk, tier, want_bugs):
     chk.model(r_edge, "Heap/Heap_edges.cfg")
     r_spawn = f_spawn.result()
     chk.model(r_spawn, "Heap/Heap_spawn.cfg")
+    r_hold = f_hold.result()
+    chk.model(r_hold, "Heap/Heap_holders.cfg")
+    if not r_hold.ok:
+        print("MODEL-DRIFT module=Heap (holders): %s" % r_hold.invariant, flush=True)
     r_regs = f_regs.result()
     chk.model(r_regs, "Heap/Heap_regs.cfg")
     if not r_regs.ok:
